@@ -904,6 +904,9 @@ fn run_fuzz(id: &'static str, f: &Fuzz, seed: u64) -> Result<(Value, Option<Valu
         .args(["-len_control=0", "-timeout=25", "-rss_limit_mb=6000", "-print_final_stats=1"])
         .arg(format!("-artifact_prefix={}/", artifacts.display()))
         .env("VH_FUZZ_PROP", id)
+        // AddressSanitizer keeps every distinct allocation stack in a depot that is never
+        // trimmed: with a recursive parser that is tens of kilobytes per run; two frames suffice
+        .env("ASAN_OPTIONS", "malloc_context_size=2:quarantine_size_mb=64")
         .stdin(Stdio::null())
         .stdout(Stdio::piped())
         .stderr(Stdio::piped());
@@ -917,6 +920,11 @@ fn run_fuzz(id: &'static str, f: &Fuzz, seed: u64) -> Result<(Value, Option<Valu
     let corp = std::fs::read_dir(&corpus).map(|d| d.count()).unwrap_or(0);
     let execs = grab("stat::number_of_executed_units");
     let stat = json!({"target": name, "execs": execs, "coverage_edges": cov, "corpus_files": corp, "runs_requested": f.runs, "wall_s": t0.elapsed().as_secs_f64()});
+    // the whole process outgrew the RSS limit: cumulative, not attributable to the last input
+    if log.contains("ERROR: libFuzzer: out-of-memory (used:") {
+        let _ = std::fs::remove_dir_all(&work);
+        return Err(format!("fuzz target {} exceeded the process-wide RSS limit after {} runs (cumulative memory, no single input to blame)", name, execs));
+    }
     let mut crash = None;
     let arts: Vec<PathBuf> = std::fs::read_dir(&artifacts).map(|d| d.flatten().map(|e| e.path()).collect()).unwrap_or_default();
     if let Some(a) = arts.first() {
